@@ -10,7 +10,11 @@ import (
 	"go/scanner"
 	"go/token"
 	"io"
+	"io/fs"
 	"math/rand"
+	"os"
+	"path/filepath"
+	"runtime"
 	"sort"
 	"strconv"
 	"strings"
@@ -587,7 +591,7 @@ func runC19(res *corr.Result, r *rand.Rand, tier, model string) int {
 	// ---- ShouldBuild, generated
 	nsb := 50000
 	if tier == "thorough" {
-		nsb = 150000
+		nsb = 400000
 	}
 	var contents [][]byte
 	var tsets [][][]string
@@ -746,12 +750,22 @@ func parserImports(src []byte, mode parser.Mode) (lits []string, ok bool) {
 	return lits, true
 }
 
+// normLit: go/scanner discards carriage returns from raw string literal values (Go spec, "String
+// literals"); ReadImports returns the bytes as written and its consumer's strconv.Unquote drops them
+// as well, so both denote the same path.  Literals are compared with CRs removed from raw strings.
+func normLit(s string) string {
+	if strings.HasPrefix(s, "`") {
+		return strings.ReplaceAll(s, "\r", "")
+	}
+	return s
+}
+
 func eqStrs(a, b []string) bool {
 	if len(a) != len(b) {
 		return false
 	}
 	for i := range a {
-		if a[i] != b[i] {
+		if normLit(a[i]) != normLit(b[i]) {
 			return false
 		}
 	}
@@ -859,7 +873,7 @@ func (g *hgen) pathLit() string {
 		sb.WriteString(`"`)
 		return sb.String()
 	default: // legal string literals that are not legal import paths (parser: "invalid import path")
-		return g.pick(`"a\"b"`, `"a\\b"`, `""`, "``", `"a b"`, "`a\\`", `"\\"`, `"a\tb"`, "`a\"b`", `"a'b"`, `"\\\\"`, `"\"`+`"`)
+		return g.pick(`"a\"b"`, `"a\\b"`, `""`, "``", `"a b"`, "`a\\`", `"\\"`, `"a\tb"`, "`a\"b`", "`a\r\nb`", `"a'b"`, `"\\\\"`, `"\"`+`"`)
 	}
 }
 
@@ -1131,6 +1145,42 @@ func ioErrOracle(res *corr.Result, d []byte, n int) {
 	}()
 }
 
+// realGoFiles lists .go files under $VERIF_REPO (default /repo) and, in the thorough tier, under GOROOT/src,
+// in sorted order (deterministic); testdata directories included: they hold odd but legal headers.
+func realGoFiles(tier string) []string {
+	roots := []string{os.Getenv("VERIF_REPO")}
+	if roots[0] == "" {
+		roots[0] = "/repo"
+	}
+	limit := 400
+	if tier == "thorough" {
+		roots = append(roots, filepath.Join(runtime.GOROOT(), "src"))
+		limit = 12000
+	}
+	var files []string
+	for _, root := range roots {
+		n := 0
+		if r, err := filepath.EvalSymlinks(root); err == nil {
+			root = r
+		}
+		filepath.WalkDir(root, func(p string, d fs.DirEntry, err error) error {
+			if err != nil {
+				return nil
+			}
+			if d.IsDir() && (d.Name() == ".git" || d.Name() == "node_modules") {
+				return filepath.SkipDir
+			}
+			if !d.IsDir() && strings.HasSuffix(p, ".go") && n < limit {
+				files = append(files, p)
+				n++
+			}
+			return nil
+		})
+	}
+	sort.Strings(files)
+	return files
+}
+
 func runC18(res *corr.Result, r *rand.Rand, tier, model string) int {
 	g := &hgen{r: r}
 	type rcase struct {
@@ -1150,6 +1200,7 @@ func runC18(res *corr.Result, r *rand.Rand, tier, model string) int {
 	// corpus: witnesses of past findings first
 	add([]byte("\xef\xbb\xbfpackage p\nimport \"a\"\nfunc f() {}\n"), []string{`"a"`}, true)
 	add([]byte("\xef\xbb\xbfpackage p\n\nimport (\n\t\"a\"\n\tb `c`\n)\n"), []string{`"a"`, "`c`"}, true)
+	add([]byte("package p\nimport `a\r\nb`\nfunc f() {}\n"), nil, false) // CR inside a raw literal: go/scanner drops it from the value
 	add([]byte("\xef\xbb\xbf"), nil, false)
 	add([]byte("\xef\xbb"), nil, false)
 	add([]byte("package p\nimport \"a\"\nimport . \"b\"\nimport _ `c`\nimport x \"d\"\nvar v int\n"), []string{`"a"`, `"b"`, "`c`", `"d"`}, true)
@@ -1158,7 +1209,7 @@ func runC18(res *corr.Result, r *rand.Rand, tier, model string) int {
 	}
 	nvalid, nmal, tokLen := 15000, 15000, 4
 	if tier == "thorough" {
-		nvalid, nmal, tokLen = 300000, 300000, 5
+		nvalid, nmal, tokLen = 500000, 500000, 5
 	}
 	enumTokens(tokLen, func(b []byte) { add(b, nil, false) })
 	nEnum := len(cs)
@@ -1169,6 +1220,18 @@ func runC18(res *corr.Result, r *rand.Rand, tier, model string) int {
 	for i := 0; i < nmal; i++ {
 		add(g.malformed(), nil, false)
 	}
+	// real files: /repo's own sources (quick) and the toolchain's standard library (thorough)
+	nReal := 0
+	for _, f := range realGoFiles(tier) {
+		d, err := os.ReadFile(f)
+		if err != nil || len(d) > 1<<17 {
+			continue
+		}
+		before := len(cs)
+		add(d, nil, false)
+		nReal += len(cs) - before
+	}
+	res.Distribution["read-real-go-files"] = nReal
 	cases := make([]string, 0, 2*len(cs))
 	for _, c := range cs {
 		h := corr.Hx(c.d)
@@ -1253,13 +1316,34 @@ func runImports(tier string, seed int64, model string, replay string) *corr.Resu
 	res := corr.NewResult("imports", tier, seed)
 	if replay != "" {
 		replayOne(res, model, replay)
+		if res.NDisagreements > 0 {
+			if strings.HasPrefix(replay, "read ") {
+				disagreementProps = []string{"C18"}
+			} else {
+				disagreementProps = []string{"C19"}
+			}
+		}
 		return res
 	}
 	r := rand.New(rand.NewSource(seed))
 	checkDriverU(res, model)
 	syslistDrift(res)
+	d0 := res.NDisagreements
 	n19 := runC19(res, r, tier, model)
+	d19 := res.NDisagreements - d0
 	n18 := runC18(res, r, tier, model)
+	d18 := res.NDisagreements - d0 - d19
+	if d0 > 0 { // the driver's letter/digit table is only used by the C19 model
+		d19 += d0
+	}
+	if d19 > 0 {
+		disagreementProps = append(disagreementProps, "C19")
+	}
+	if d18 > 0 {
+		disagreementProps = append(disagreementProps, "C18")
+	}
+	res.Extra["disagreements_C19"] = d19
+	res.Extra["disagreements_C18"] = d18
 	res.DistinctNontrivial = n19 + n18
 	res.Extra["nontrivial_C19"] = n19
 	res.Extra["nontrivial_C18"] = n18
